@@ -141,20 +141,28 @@ Proof.
 Qed.
 
 (* the request futures of bundles.rs only use the handle-level transitions: one poll of a request future
-   is "consume the wake-up, then poll_next m >= 1 times"; hence every theorem above covers them *)
-Theorem C17_request_refines : forall A (script : list (sstep A)) n s c fuel answers s' p,
-  request_step fuel answers s c = Done (s', p) ->
-  (exists m, 1 <= m <= fuel /\ s' = poll_n m (clear_woken c s) c) /\
+   is "consume the wake-up, then poll_next m >= 1 times"; hence every theorem above covers them.
+   "asked only when a request actually needs it" for batches: a batch request with NO keys
+   (format_values / format_messages with an empty list) changes nothing — no source poll, no item pulled *)
+Theorem C17_request_refines : forall A (script : list (sstep A)) n s c fuel no_keys answers s' p,
+  request_step fuel no_keys answers s c = Done (s', p) ->
+  (if no_keys then s' = s /\ p = Ready None
+   else exists m, 1 <= m <= fuel /\ s' = poll_n m (clear_woken c s) c) /\
   (reachable script n s -> reachable script n s').
 Proof.
-  intros A script n s c fuel answers s' p H. split.
-  - eapply request_poll_iter; eauto.
+  intros A script n s c fuel no_keys answers s' p H. split.
+  - unfold request_step in H. destruct no_keys; [injection H as <- <-; auto|]. eapply request_poll_iter; eauto.
   - intros Hr. econstructor; eauto.
 Qed.
 
+Theorem C17_lazy_empty_request : forall A fuel answers (s : astate A) c s' p,
+  request_step fuel true answers s c = Done (s', p) ->
+  n_polls s' = n_polls s /\ items s' = items s /\ s' = s.
+Proof. intros A fuel answers s c s' p H. cbn in H. injection H as <- <-. auto. Qed.
+
 (* ---- the synchronous iterator variant (Cache / CacheIter) ---------------------------------- *)
 (* `sreachable src n c`: c is reached from `cache_new src n` by next() calls on the n handles in ANY
-   interleaving and by whole synchronous requests (format_*_from_iter). *)
+   interleaving and by whole synchronous requests (format_*_from_iter, `request_sync_step`). *)
 
 Theorem C17_sync_histories_reachable : forall A (src0 : list A) n h, sreachable src0 n (cache_run (cache_new src0 n) h).
 Proof. intros. apply cache_run_sreachable. constructor. Qed.
@@ -192,12 +200,14 @@ Proof.
   intros i k Hk. destruct (sync_same_order _ _ _ _ _ H Hk) as (_ & H2 & _). exact H2.
 Qed.
 
-Theorem C17_sync_request_refines : forall A (src0 : list A) n c i fuel answers c' r,
-  request_sync fuel answers c i = Done (c', r) ->
-  (exists m, 1 <= m <= fuel /\ c' = next_n m c i) /\ (sreachable src0 n c -> sreachable src0 n c').
+Theorem C17_sync_request_refines : forall A (src0 : list A) n c i fuel no_keys answers c' r,
+  request_sync_step fuel no_keys answers c i = Done (c', r) ->
+  (if no_keys then c' = c /\ r = None
+   else exists m, 1 <= m <= fuel /\ c' = next_n m c i) /\
+  (sreachable src0 n c -> sreachable src0 n c').
 Proof.
-  intros A src0 n c i fuel answers c' r H. split.
-  - eapply request_sync_iter; eauto.
+  intros A src0 n c i fuel no_keys answers c' r H. split.
+  - unfold request_sync_step in H. destruct no_keys; [injection H as <- <-; auto|]. eapply request_sync_iter; eauto.
   - intros Hr. econstructor; eauto.
 Qed.
 
